@@ -23,6 +23,11 @@ CHECKS = {
                 text="Absence property over the call graph from main: no hash-, listing- or discovery-ordered iteration reaches an order-sensitive sink "
                      "(String append, Vec push on an object outliving the loop) without a total sort; no early exit from such loops; no per-process seeds.",
                 note=_MIR + "; slice::sort*/BTree ordering contracts"),
+    "C14": dict(level="other", design_ref="5/C14", technique="table extraction from MIR (eq-chains, default lists, enum variants) cross-checked with docs tables and Solstat.toml; guard/def-table analysis of Opts::new (static analysis)",
+                text="Decides agreement of five hand-maintained tables per category (name match, enum, default list, docs, sample config), case-insensitivity "
+                     "(comparison on to_lowercase), divergence on unknown names before any analysis, list selection with/without --toml, use of every config field, "
+                     "and the precedence --path > toml path > ./contracts as guards of the definitions of Opts.path.",
+                note=_MIR + "; clap / toml / serde behaviour"),
     "C16": dict(level="other", design_ref="5/C16", technique="guard-DNF extraction at the file read + dominance of the filter over every content access (static analysis)",
                 text="The guard of the only content read in each analyze_dir equals !is_dir && ends_with(name,'.sol') && !ends_with(lower(name),'.t.sol') with name "
                      "the final path component; every content access is under it; before it only listing/name conversions can fail; three siblings identical.",
